@@ -232,6 +232,18 @@ func c19Measure(args []string) error {
 		reps = 4
 		res = []int{12, 16, 24, 32, 40}
 	}
+	if len(args) == 0 {
+		// long thin rods sampled with more than 2^10 cells along y and along z (V2 samples a uniform grid, so only
+		// a thin part gets there): anything that packs or truncates cell coordinates shows as an open surface
+		for ax := 1; ax <= 2; ax++ {
+			sz := [3]float64{0.5, 0.5, 0.5}
+			sz[ax] = 68
+			rod, _ := sdf.Box3D(v3.Vec{X: sz[0], Y: sz[1], Z: sz[2]}, 0)
+			sh := dcShape{name: "long-rod", kind: "exact", s: rod, vol: 17, param: fmtf(float64(ax))}
+			o := dcMeasure(sh, "dc2", 1100, v3.Vec{X: 0.3, Y: -0.2, Z: 0.1})
+			emit(o)
+		}
+	}
 	for rep := 0; rep < reps; rep++ {
 		shapes := dcShapes(rnd)
 		if rep == 0 {
